@@ -76,13 +76,13 @@ func VerifHarness_C07_logon() {
 	N := ndInt("N", 1, 40)
 	r.setCounters(T, N)
 	r.st.SaveMessage(1, []byte("old"))
-	if initiator {
-		// our own Logon goes out first
-		r.s.Connect(r.s)
-		verifAssume(verifStateKind(r.s.State) == stLogon)
-	} else {
-		r.s.State = logonState{}
-	}
+	// the connection is established through the admin request, as the acceptor/initiator do; a previous connection
+	// may have ended after our reset Logon went out and before any reply (sentReset still set at that moment)
+	r.s.State = latentState{}
+	r.s.messageOut = nil
+	r.s.sentReset = ndBool("previous-connection-ended-after-our-reset-logon")
+	r.s.onAdmin(connect{messageOut: r.out})
+	verifAssume(verifStateKind(r.s.State) == stLogon)
 	first := r.drain()
 	sentResetOnOurLogon := false
 	if initiator {
